@@ -1368,7 +1368,7 @@ func resolveAsOf(ctx *sql.Context, db Database, asOf interface{}) (*doltdb.Commi
 	}
 	switch x := asOf.(type) {
 	case time.Time:
-		return resolveAsOfTime(ctx, db.ddb, head, x)
+		return resolveAsOfTime(ctx, db, head, x)
 	case string:
 		return resolveAsOfCommitRef(ctx, db, head, x)
 	default:
@@ -1376,13 +1376,21 @@ func resolveAsOf(ctx *sql.Context, db Database, asOf interface{}) (*doltdb.Commi
 	}
 }
 
-func resolveAsOfTime(ctx *sql.Context, ddb *doltdb.DoltDB, head ref.DoltRef, asOf time.Time) (*doltdb.Commit, doltdb.RootValue, error) {
+func resolveAsOfTime(ctx *sql.Context, db Database, head ref.DoltRef, asOf time.Time) (*doltdb.Commit, doltdb.RootValue, error) {
+	ddb := db.ddb
+
 	cs, err := doltdb.NewCommitSpec("HEAD")
 	if err != nil {
 		return nil, nil, err
 	}
 
-	optCmt, err := ddb.Resolve(ctx, cs, head)
+	// Resolve HEAD as of the start of the transaction, like resolveAsOfCommitRef does
+	nomsRoot, err := dsess.TransactionRoot(ctx, db)
+	if err != nil {
+		return nil, nil, err
+	}
+
+	optCmt, err := ddb.ResolveByNomsRoot(ctx, cs, head, nomsRoot)
 	if err != nil {
 		return nil, nil, err
 	}
